@@ -346,4 +346,38 @@ theorem listing_run (fs : Bytes → Option Bytes) (main : Bytes) (b : List UInt8
     exact hrun
   exact Asm.run_of_statements fs main _ hfs _ hparse tbl' ⟨BASE, b, Map.u32Max - BASE + 1⟩ pending' key hne hsmall
 
+/-! ### the canonical re-encoding of a file -/
+
+/-- the canonical encoding of the instruction of an entry -/
+def canon (e : Entry) : List UInt8 :=
+  match Codec.encode e.instr with
+  | .ok hws => (Codec.toBytes hws).map (·.toUInt8)
+  | .error _ => []
+
+theorem canon_slices : ∀ (es : List Entry) (a z : Nat) (pre : List UInt8), Chain es a z → BASE ≤ a →
+    pre.length = a - BASE → (∀ e ∈ es, (canon e).length = e.after - e.addr) →
+    (pre ++ (es.map canon).flatten).length = z - BASE ∧
+      ∀ e ∈ es, slice (pre ++ (es.map canon).flatten) e = canon e := by
+  intro es
+  induction es with
+  | nil =>
+    intro a z pre hc _ hp _
+    simp only [Chain] at hc
+    subst hc
+    exact ⟨by simpa using hp, by intro e he; cases he⟩
+  | cons e r ih =>
+    intro a z pre hc ha hp hl
+    obtain ⟨c1, c2, c3⟩ := hc
+    have hle := hl e (by simp)
+    have hrec := ih e.after z (pre ++ canon e) c3 (by omega) (by simp [hp, hle]; omega)
+      (fun f hf => hl f (by simp [hf]))
+    have hassoc : pre ++ ((e :: r).map canon).flatten = (pre ++ canon e) ++ (r.map canon).flatten := by simp
+    rw [hassoc]
+    refine ⟨hrec.1, ?_⟩
+    intro f hf
+    rcases List.mem_cons.mp hf with rfl | hf
+    · unfold slice
+      rw [List.append_assoc, List.drop_left' (by omega), List.take_left' hle]
+    · exact hrec.2 f hf
+
 end Trion.Tridas
